@@ -217,7 +217,7 @@ def tasks_for(tier):
     out = []
     flagsets = [{}, {'skip_deduplication': True}, {'skip_compositions': True}, {'skip_geomcomp': True, 'skip_boundary_conditions': True},
                 {'always_inline_filling': True, 'always_inline_filled': True}, {'always_inline_filling': True}]
-    n = 8 if tier == 'quick' else 80
+    n = 8 if tier == 'quick' else 200
     for i in range(n):
         fl = flagsets[i % len(flagsets)]
         out.append(('deck', 'c01', (base + i, 2 + i % 3, 2 + i % 3, 1 + i % 4), fl))
@@ -225,7 +225,7 @@ def tasks_for(tier):
         out.append(('deck', 'c15', (base + i, c15.SCEN[i % len(c15.SCEN)]), fl))
         out.append(('deck', 'c16', (base + i, 2 + i % 2, 2 + i % 2, ['dedup', 'nodedup', 'unused'][i % 3]), fl))
     nchunks = 16 if tier == 'quick' else 64
-    per = 250 if tier == 'quick' else 2500
+    per = 250 if tier == 'quick' else 5000
     for c in range(nchunks):
         out.append(('prune', (base + 1000 + c, per, 2 + c % 3)))
     return out
